@@ -712,11 +712,19 @@ func dictAndValuesRules(c *Ctx, r *Report) {
 		r.Check(recvOK && keyOK && chainOK, "R01d", name, "per-key store", c.Pos(set.Pos()), "to.set(k, mergeValues(to.get(k), v).cpy) with the loop's own k and v", "the dictionary loop does not store merge(dest[k], source[k]) under the same key k of the destination")
 		// every iteration that does not fail reaches the store: must-pass within the loop body is
 		// implied by: the set call's block is the only predecessor of the loop header besides entry
+		// (decided on paths: no way round the loop, from the header back to the header, avoids the block of the store)
 		only := false
 		if lp := loopOf(fn, set.Block()); lp != nil {
-			only = true
-			for _, pr := range loopHeader(lp).Preds {
-				if lp[pr] && pr != set.Block() {
+			h := loopHeader(lp)
+			avoid := map[*ssa.BasicBlock]bool{set.Block(): true}
+			for _, b := range fn.Blocks {
+				if !lp[b] {
+					avoid[b] = true
+				}
+			}
+			only = h != set.Block()
+			for _, s := range h.Succs {
+				if lp[s] && !avoid[s] && reachableFromEdge(h, s, h, avoid) {
 					only = false
 				}
 			}
